@@ -67,7 +67,14 @@ class Ranger:
         return None
 
     def bounds(self, e, conds=()):
-        b = self._bounds(e)
+        self._conds = conds
+        return self._bounds(e)
+
+    def _bounds(self, e):
+        b = self._structural(e)
+        conds = getattr(self, "_conds", ())
+        if not conds:
+            return b
         # refinement by path conditions that compare e with constants
         for c in conds:
             ce, v = c[0], c[1]
@@ -102,7 +109,7 @@ class Ranger:
                         b = (tr[0] if lo is None else lo, tr[1] if hi is None else hi)
         return b
 
-    def _bounds(self, e):
+    def _structural(self, e):
         k = e[0]
         if k == "int":
             return (e[1], e[1])
